@@ -334,6 +334,14 @@ struct reb_particle reb_simulation_particle_by_hash_mpi(struct reb_simulation* c
 }
 
 void reb_simulation_remove_all_particles(struct reb_simulation* const r){
+	if(r->free_particle_ap){
+		// As in reb_simulation_remove_particle and reb_simulation_free_pointers: once per removed particle.
+		for(unsigned int i=0; i<r->N; i++){
+			r->free_particle_ap(&r->particles[i]);
+		}
+	}
+	// The leaves of the tree hold indices into the particle array that is freed below.
+	reb_tree_delete(r);
 	r->N 		= 0;
 	r->N_allocated 	= 0;
 	r->N_active 	= -1;
